@@ -181,9 +181,32 @@ UN1 = ["rank", "contains", "nextValue", "previousValue", "nextAbsentValue", "pre
 UN0 = ["getCardinality", "minimum", "maximum", "numberOfRuns", "isFull", "isEmpty"]
 
 
+def _word_edge_cases(g):
+    """fixed: the nearest absent / present value sits in the FIRST or the LAST 64-bit word (or word) of the chunk while everything
+    between it and the target is present / absent — downward scans must reach word 0, upward scans word 1023"""
+    r = g.r
+    h = r.choice([0, 1, 2, 31, 62, 63])
+    t = r.choice([0, 1, 30, 63])
+    sets = [
+        norm([(0, h - 1), (h + 1, 30000)]),                         # hole h < 64, then solid up to 30000
+        norm([(0, 63 - 1 - t), (64, 30000)]) if t < 63 else [(64, 30000)],   # word 0 partly filled from below
+        norm([(35000, CH - 2 - h), (CH - h, CH - 1)]),              # hole in the last word
+        [(5, 5), (40000, 50000)],                                   # the nearest present value below is in word 0
+        [(30000, 40000), (CH - 1 - t, CH - 1 - t)],                 # the nearest present value above is in the last word
+    ]
+    for ivs in sets:
+        for kind in kinds_for(ivs):
+            ca = render(g, ivs, kind)
+            for op in ("previousAbsentValue", "nextAbsentValue", "previousValue", "nextValue"):
+                for x in sorted(set([64, 65, 100, 127, 128, 29999, 30000, 30001, 35000, 39999, 50001, CH - 65, CH - 64, CH - 1, 0, 63, h, h + 1])):
+                    g.emit("kern %s %s - %d" % (op, ca, x))
+            g.count("q2:word-edge")
+
+
 @suite("kernq2")
 def _kernq2(g, scale):
     r = g.r
+    _word_edge_cases(g)
     for _ in range(int(40 * scale)):
         ivs = shapes(g)
         c = card(ivs)
